@@ -161,3 +161,51 @@ Definition mk_shr (e : expr) (n : Z) : expr := if n <? 0 then mk_shift_left e (-
 (* result of a partial constructor as an expression: an exception becomes an ill-formed node (wf_expr = false) *)
 Definition bad_expr : expr := ESlice (EConst 0 (Sh 0 false)) 1 0.
 Definition oget (o : option expr) : expr := match o with Some e => e | None => bad_expr end.
+
+(* ---- matches() on the patterns as the user writes them: _normalize_patterns then one comparison per pattern ---- *)
+Inductive pchar := C0 | C1 | CDash | CSpace | CTab | COther.        (* characters of a pattern string *)
+Inductive rawpat := RStr (s : list pchar) | RInt (v : Z).           (* a str, or anything Const.cast accepts (its value) *)
+Inductive npat := NStr (p : pattern) | NInt (v : Z).                (* what _normalize_patterns returns *)
+Definition pchar_legal (c : pchar) : bool := match c with COther => false | _ => true end.      (* c in "01- \t" *)
+Definition pchar_ws (c : pchar) : bool := match c with CSpace | CTab => true | _ => false end.
+Definition pchar_strip (s : list pchar) : list pchar := filter (fun c => negb (pchar_ws c)) s.   (* "".join(s.split()) *)
+Definition pchar_bit (c : pchar) : option bool := match c with C1 => Some true | C0 => Some false | _ => None end.
+Definition pat_of_chars (s : list pchar) : pattern := map pchar_bit s.
+(* one iteration of the loop of _normalize_patterns: None = SyntaxError, Some None = skipped with a warning *)
+Definition normalize_pattern (sh : shape) (p : rawpat) : option (option npat) :=
+  match p with
+  | RStr s =>
+      if existsb (fun c => negb (pchar_legal c)) s then None
+      else let s' := pchar_strip s in
+           if negb (Z.of_nat (length s') =? width sh) then None else Some (Some (NStr (pat_of_chars s')))
+  | RInt v => if negb (const_norm sh v =? v) then Some None else Some (Some (NInt v))
+  end.
+Fixpoint normalize_patterns (sh : shape) (ps : list rawpat) : option (list npat) :=
+  match ps with
+  | [] => Some []
+  | p :: r =>
+      match normalize_pattern sh p with
+      | None => None
+      | Some o => match normalize_patterns sh r with
+                  | None => None
+                  | Some l => Some (match o with Some n => n :: l | None => l end)
+                  end
+      end
+  end.
+Definition mk_match1n (e : expr) (p : npat) : expr :=
+  match p with
+  | NStr p => mk_match1 e p
+  | NInt v => EOp2 OEq e (mk_const_auto v)
+  end.
+Definition mk_any (l : list expr) : expr :=
+  match l with
+  | [] => mk_const_auto 0
+  | [m] => m
+  | _ => EOp1 ORor (ECat l)
+  end.
+Definition mk_matches_n (e : expr) (ps : list npat) : expr := mk_any (map (mk_match1n e) ps).
+Definition mk_matches_raw (e : expr) (ps : list rawpat) : option expr :=
+  match normalize_patterns (shape_of e) ps with
+  | None => None
+  | Some l => Some (mk_matches_n e l)
+  end.
